@@ -502,3 +502,16 @@ def describe(tier):
         assumptions=["per-window peaks are taken from fresh HvsrCurve objects (C08 judges those)",
                      "the reciprocal comparison is made only for ranges with open or on-grid limits and when "
                      "reversal does not move a peak across a limit"])
+
+
+_describe_base = describe
+
+
+def describe(tier):     # noqa: F811 - the base description plus what later rounds added to the space
+    d = _describe_base(tier)
+    d["rule"] = d["rule"] + " " + ("The menus hold range updates whose peak options scipy refuses; every spelling of a "
+                                   "distribution that an accessor accepts is compared with the canonical spelling; the "
+                                   "lognormal mean curve is judged where an accepted window holds an exact zero; one root "
+                                   "holds 1500 windows (manual rejections / re-acceptances in the middle of the record, "
+                                   "touch mode).")
+    return d
